@@ -161,7 +161,7 @@ theorem F_replaceEmpty (text : Bytes) : F (replaceEmpty [10] text) = F text := b
 
 theorem F_getIndent (s : Style) (k : Nat) : F (getIndent s k) = [] := by
   cases s
-  · simp only [getIndent]; rw [F_cons_ws (by decide), F_replicate_sp]
+  · rw [getIndent_expanded, F_cons_ws (by decide), F_replicate_sp]
   · rfl
 
 theorem F_joinNl (ls : List Bytes) : F (joinNl ls) = (ls.map F).flatten := by
